@@ -98,6 +98,12 @@ def decode(ints, prof=None):
     if prof:
         p.update(prof)
     g = G(ints)
+    if p.get("constructs") and g.n(10) < p["constructs"]:
+        spec = decode_constructs(g, p)
+        spec["seed"] = g.n(1000)
+        spec["T"] = g.pick(TS)
+        fix_policies(spec, g, p)
+        return spec          # construction and connect order are the helper's
     if g.n(10) < p["pack"]:
         spec = decode_pack(g, p)
     else:
@@ -145,6 +151,40 @@ def machine_spec(g, p, nid):
             "setup": g.pick([0, 0, 0, 0.5, 2]) if p["setup"] else 0,
             "blocking": True if not p["nonblocking"] else g.chance(2, 3),
             "delay": delay_spec(g, p["zero_delays"]), "in_sel": None, "out_sel": None}
+
+
+def decode_constructs(g, p):
+    """models built through the documented construct helpers (factorysimpy.constructs): a chain
+    source -> buffer -> machine -> ... -> buffer -> sink, or a rows x cols mesh (every machine feeds its right and its lower
+    neighbour, the source feeds the first row, the last row feeds the sink).  Node / edge ids follow the helpers' naming."""
+    def buf(eid, u, v):
+        return edge_spec(g, p, eid, u, v, ["Buffer"])
+    if g.chance(1, 2):
+        n = 1 + g.n(4)
+        nodes = [dict(source_spec(g, p, "Source"))] + [machine_spec(g, p, "Node_%d" % (i + 1)) for i in range(n)] + [
+            {"id": "Sink", "type": "Sink", "setup": 0}]
+        ids = [x["id"] for x in nodes]
+        edges = [buf("Edge_%d" % (i + 1), ids[i], ids[i + 1]) for i in range(n + 1)]
+        return {"nodes": nodes, "edges": edges, "shape": "chain", "via": "chain"}
+    rows, cols = g.pick([(1, 2), (2, 2), (2, 2), (2, 3), (3, 2), (3, 3), (2, 1)])
+    nodes = [dict(source_spec(g, p, "Source"))]
+    edges = []
+    name = lambda r, c: "M_%d_%d" % (r + 1, c + 1)
+    for r in range(rows):
+        for c in range(cols):
+            nodes.append(machine_spec(g, p, name(r, c)))
+    for r in range(rows):
+        for c in range(cols):
+            if c + 1 < cols:
+                edges.append(buf("B_%s_%s" % (name(r, c), name(r, c + 1)), name(r, c), name(r, c + 1)))
+            if r + 1 < rows:
+                edges.append(buf("B_%s_%s" % (name(r, c), name(r + 1, c)), name(r, c), name(r + 1, c)))
+    for c in range(cols):
+        edges.append(buf("B_SRC_%s" % name(0, c), "Source", name(0, c)))
+    nodes.append({"id": "Sink", "type": "Sink", "setup": 0})
+    for c in range(cols):
+        edges.append(buf("B_%s_SINK" % name(rows - 1, c), name(rows - 1, c), "Sink"))
+    return {"nodes": nodes, "edges": edges, "shape": "mesh", "via": "mesh", "rows": rows, "cols": cols}
 
 
 def decode_flow(g, p):
